@@ -339,6 +339,28 @@ func c07(r *ev.Run) {
 		r.Eval(local)
 	})
 	var nc int64
+	// exactly ONE lower-case letter (each of a..z, at each of 8 positions) among upper-case ones, and the reverse:
+	// a case test with a wrong range boundary misses one letter only when no other letter triggers the folding
+	for L := byte('A'); L <= 'Z'; L++ {
+		for pos := 0; pos < 8; pos++ {
+			for _, fill := range []string{string([]byte{L}), "A", "7", "Z"} {
+				up := strings.Repeat(fill, pos) + string([]byte{L}) + strings.Repeat(fill, 7-pos)
+				lo := strings.Repeat(fill, pos) + string([]byte{L | 0x20}) + strings.Repeat(fill, 7-pos)
+				run(lo, &nc)
+				run(strings.ToLower(up[:pos])+up[pos:pos+1]+strings.ToLower(up[pos+1:]), &nc)
+				run(lo[:5], &nc) // unpadded 5-symbol form of the same
+			}
+		}
+	}
+	// a valid secret written in ANOTHER transport encoding must be refused, not decoded: percent-escapes, '+' for
+	// a blank, quoted-printable, backslash and HTML escapes, grouping separators, a data: / otpauth: prefix
+	for _, enc := range []string{"MZXW6YT%42", "MY%3D%3D%3D%3D%3D%3D", "%20MZXW6YTB", "+MZXW6YTB%20", "MZXW6YTB%0A", "%4D%5A%58%57%36%59%54%42", "MZXW6YTB%", "MZXW6YTB%4", "MZXW6YTB%zz", "MZXW%256YTB",
+		"MZXW6YT=42", "MZXW6YT\\x42", "MZXW6YT\\u0042", "MZXW6YT&#66;", "MZXW6YT&amp;", "MZXW 6YTB", "MZXW-6YTB", "MZXW_6YTB", "MZXW.6YTB", "MZXW,6YTB", "MZXW:6YTB", "MZXW\t6YTB",
+		"secret=MZXW6YTB", "otpauth://totp/x?secret=MZXW6YTB", "base32:MZXW6YTB", "\"MZXW6YTB\"", "'MZXW6YTB'", "<MZXW6YTB>", "MZXW6YTB;", "MZXW6YTB,", "MZXW6YTB.", "0xMZXW6YTB", "MZXW6YTB==%3D"} {
+		run(enc, &nc)
+		run(strings.ToLower(enc), &nc)
+		run(" "+enc+"\n", &nc)
+	}
 	run(strings.Repeat("ı", 16), &nc)
 	run(strings.Repeat("ſ", 16), &nc)
 	run(strings.Repeat("ı", 8)+"MZXW6YTB", &nc)
